@@ -34,6 +34,78 @@ def build_corpus(tier, seed):
     return cases + rc + dag, total, exh_complete
 
 
+def subset_mechanism(ok, tier, corrupt=None):
+    """Subset.tla: (i) trace validation - the steps the instrumented dfa_from_regex reported (hook events, feature `verif`) are a
+    behaviour of the model, and the model's Final for the recorded pop order is the automaton that left do_minimize, number for
+    number; (ii) design level - every pop order of the position systems recorded in (i).  Notes, never verdicts."""
+    step = max(1, len(ok) // (300 if tier == "quick" else 3000))
+    pick = [r for r in ok if len(r["obs"]["raw"]["tr"]) >= 2][::step]
+    rec = core.record("mintrace", [{"id": r["id"], "usage": r["usage"], "shell": r["shell"]} for r in pick])
+    cases, usage = [], {}
+    for r in rec:
+        o = r["obs"]
+        if o.get("verdict") != "ok" or not o.get("sc"):
+            continue
+        for k, seg in enumerate(o["sc"]):
+            if seg["end"] > 14 or len(seg["events"]) > 120:
+                continue
+            c = {f: seg[f] for f in ("end", "first", "follow", "sym", "ninp", "events")}
+            c["id"] = len(cases) + 1
+            top = k == len(o["sc"]) - 1
+            c["hasmin"] = top
+            c["mintr"] = [[t["f"], t["i"], t["t"]] for t in o["min"]["tr"]] if top else []
+            c["minacc"] = o["min"]["acc"] if top else []
+            usage[c["id"]] = r["usage"]
+            cases.append(c)
+    if corrupt:
+        corrupt(cases)
+    if not cases:
+        return {"traces": 0, "states": 0, "transitions": 0}
+    res = core.run_tlc_sharded("SubsetTrace.tla", "SubsetTrace.cfg", cases, shards=8, workers=1, prefix="subsettrace", timeout=3000)
+    acc = {x[0] for x in res.tagged("ACCEPTED")}
+    finok = {x[0] for x in res.tagged("FINALOK")}
+    findiff = sorted({x[0] for x in res.tagged("FINALDIFF")})
+    at = {}
+    for x in res.tagged("AT"):
+        at[x[0]] = max(at.get(x[0], 0), x[1])
+    mech = sorted({(x[0], x[1]) for x in res.tagged("MECH")})
+    rejected = [c["id"] for c in cases if c["id"] not in acc]
+    for i in rejected[:3]:
+        core.log("MODEL-DRIFT (not a verdict): the recorded steps of dfa_from_regex for %r are not a behaviour of Subset.tla (matched %d of %d events)" % (
+            usage[i].strip(), at.get(i, 0), len(cases[i - 1]["events"])))
+    for i in findiff[:3]:
+        core.log("MODEL-DRIFT (not a verdict): for %r the automaton that left do_minimize is not the one Subset.tla's Final computes for the recorded pop order" % usage[i].strip())
+    out = {"traces": len(cases), "traces_accepted": len(acc), "traces_not_a_behaviour": len(rejected), "trace_events": sum(len(c["events"]) for c in cases),
+           "final_automaton_compared": len(finok) + len(findiff), "final_automaton_differs": len(findiff), "rejected_ids": rejected[:10],
+           "trace_states": res.distinct, "invariant_reports_on_traces": len(mech)}
+    # design level: all pop orders, on the small position systems seen above
+    seen, small = set(), []
+    for c in cases:
+        key = json.dumps([c[f] for f in ("end", "first", "follow", "sym", "ninp")])
+        if key in seen or c["end"] > (7 if tier == "quick" else 9):
+            continue
+        seen.add(key)
+        small.append({f: c[f] for f in ("id", "end", "first", "follow", "sym", "ninp")})
+    small = small[:120] if tier == "quick" else small[:1200]
+    if small:
+        res2 = core.run_tlc_sharded("Subset.tla", "Subset.cfg", small, shards=8, workers=2, prefix="subset", timeout=3000)
+        finals = {}
+        for x in res2.tagged("FINAL"):
+            finals.setdefault(x[0], set()).add(x[2])
+        bad = sorted({(x[0], x[1]) for x in res2.tagged("MECH")})
+        for i, what in bad[:5]:
+            core.log("MODEL-PREDICTION (design level, not a verdict): some pop order of the modelled subset construction breaks `%s` on the position system of %r" % (what, usage[i].strip()))
+        out.update({"position_systems": len(small), "terminated": len(finals), "states": res2.distinct, "transitions": res2.generated,
+                    "invariant_reports": len(bad),
+                    "systems_whose_final_numbering_depends_on_the_pop_order": sum(1 for v in finals.values() if len(v) > 1),
+                    "note": "every pop order of dfa_from_regex's hash set of unmarked states as modelled in Subset.tla (Dense, Deterministic, Complete, "
+                            "Exact, Popped in every state); the state numbers of the final automaton depend on the pop order for some systems, "
+                            "so byte-identical output rests on the hash set's iteration order being a function of its content (C10 observes it)"})
+    else:
+        out.update({"position_systems": 0, "states": 0, "transitions": 0})
+    return out
+
+
 def run(tier):
     t0 = time.time()
     seed = core.seed()
@@ -53,12 +125,14 @@ def run(tier):
             json.dumps(d["left"]), json.dumps(d["right"]), d["lacc"], d["racc"])
         v.mismatch(sig, what, {"usage": r["usage"], "shell": r["shell"], "mode": mode, "hist": d["hist"],
                                "spec_only": d["left"], "impl_only": d["right"]})
+    mech = subset_mechanism(ok, tier)
     nontrivial = {r["usage"] for r in ok if len(r["obs"]["raw"]["tr"]) >= 2}
     if len(validated) < 2 * len(ok):
         raise core.ToolError("vacuity: %d of %d records validated" % (len(validated), 2 * len(ok)))
     samples = [{"usage": r["usage"], "shell": r["shell"], "raw_states": len({t["f"] for t in r["obs"]["raw"]["tr"]} | {t["t"] for t in r["obs"]["raw"]["tr"]}),
                 "within_word_automata": len(r["obs"]["rawsubs"])} for r in ok[:: max(1, len(ok) // 5)][:5]]
-    cov = {"states": res.distinct, "transitions": res.generated, "traces_validated_against_impl": len(validated),
+    cov = {"states": res.distinct + mech["states"] + mech.get("trace_states", 0), "transitions": res.generated + mech["transitions"],
+           "traces_validated_against_impl": len(validated), "mechanism_model": mech,
            "samples": samples, "programs": len(ok), "grammars_generated": len(cases),
            "rejected_by_complgen": len(rec) - len(ok),
            "exhaustive": exh_complete, "exhaustive_trees_total": total,
